@@ -184,157 +184,4 @@ Section CmacSource.
     replace (Z.to_nat (len bs + 1)) with (List.length bs + 1)%nat by (unfold len; lia). reflexivity.
   Qed.
 
-  (* ---------------------------------------------------------------- update: symbolic execution *)
-  (* one step of [exec], the recursive calls left folded *)
-  (* the interpreter instantiated, as one constant the evaluation tactics keep folded *)
-  Definition xc := exec prim_cm no_attr no_op meth_cm.
-
-  (* what happens after an interpreted method returns (kept folded until its outcome is known) *)
-  Definition after_call (target : option string) (en : env) (rest : list stmt) (f : nat) (o : outcome) : outcome :=
-    match o with
-    | ONormal en' =>
-        let en'' := merge_self en' en in
-        xc f (match target with Some t => set_var t VNone en'' | None => en'' end) rest
-    | OReturn en' v =>
-        let en'' := merge_self en' en in
-        xc f (match target with Some t => set_var t v en'' | None => en'' end) rest
-    | ORaise => ORaise
-    | OFuel => OFuel
-    end.
-
-  Lemma after_call_normal : forall target en rest f en',
-    after_call target en rest f (ONormal en') =
-    xc f (match target with Some t => set_var t VNone (merge_self en' en) | None => merge_self en' en end) rest.
-  Proof. reflexivity. Qed.
-  Lemma after_call_return : forall target en rest f en' v,
-    after_call target en rest f (OReturn en' v) =
-    xc f (match target with Some t => set_var t v (merge_self en' en) | None => merge_self en' en end) rest.
-  Proof. reflexivity. Qed.
-  Lemma after_call_raise : forall target en rest f, after_call target en rest f ORaise = ORaise.
-  Proof. reflexivity. Qed.
-
-  Lemma exec_S : forall f en s rest,
-    xc (S f) en (s :: rest) =
-    match s with
-    | SAssign t e =>
-        match eval prim_cm no_attr no_op en e with VErr => ORaise | v => xc f (set_var t v en) rest end
-    | SAssignTuple ts e =>
-        match eval prim_cm no_attr no_op en e with
-        | VTuple vs => if any_err vs then ORaise else
-                       match set_tuple ts vs en with Some en' => xc f en' rest | None => ORaise end
-        | _ => ORaise
-        end
-    | SSliceAssign t lo hi e =>
-        match lookup t en, eval prim_cm no_attr no_op en e with
-        | VBytes b, VBytes v =>
-            match opt_int (match lo with Some x => Some (eval prim_cm no_attr no_op en x) | None => None end) 0,
-                  opt_int (match hi with Some x => Some (eval prim_cm no_attr no_op en x) | None => None end) (len b) with
-            | Some l, Some h => xc f (set_var t (VBytes (py_splice b l h v)) en) rest
-            | _, _ => ORaise
-            end
-        | _, _ => ORaise
-        end
-    | SAug t op e =>
-        match bin no_op op (lookup t en) (eval prim_cm no_attr no_op en e) with
-        | VErr => ORaise | v => xc f (set_var t v en) rest end
-    | SIf c th el =>
-        if cond_err prim_cm no_attr no_op en c then ORaise
-        else if cond_val prim_cm no_attr no_op en c then xc f en (sapp th rest)
-             else xc f en (sapp el rest)
-    | SWhile c body =>
-        if cond_err prim_cm no_attr no_op en c then ORaise
-        else if cond_val prim_cm no_attr no_op en c then xc f en (sapp body (s :: rest))
-             else xc f en rest
-    | SReturn e => match eval prim_cm no_attr no_op en e with VErr => ORaise | v => OReturn en v end
-    | SExpr e => match eval prim_cm no_attr no_op en e with VErr => ORaise | _ => xc f en rest end
-    | SAssert c =>
-        if cond_err prim_cm no_attr no_op en c then ORaise
-        else if cond_val prim_cm no_attr no_op en c then xc f en rest else ORaise
-    | SRaise => ORaise
-    | SPass => xc f en rest
-    | SCall target fname args =>
-        let vs := map (eval prim_cm no_attr no_op en) args in
-        if any_err vs then ORaise else
-        match meth_cm fname with
-        | None => ORaise
-        | Some (ps, body) =>
-            after_call target en rest f (xc f (bind ps vs (self_part en)) body)
-        end
-    end.
-  Proof. reflexivity. Qed.
-
-  Lemma exec_nil : forall f en, xc (S f) en [] = ONormal en.
-  Proof. reflexivity. Qed.
-
-  Ltac sstep :=
-    first [rewrite exec_S at 1 | rewrite exec_nil at 1 | rewrite after_call_normal | rewrite after_call_return | rewrite after_call_raise];
-    cbv -[xc after_call state_in env_of result_of update digest Z.eqb Z.ltb Z.leb Z.add Z.sub Z.mul Z.pow Z.modulo Z.div Z.lxor Z.land Z.lor Z.shiftl Z.shiftr Z.opp
-          Z.min Z.max Z.to_nat Z.of_nat len xor_zip py_slice py_splice rev app zeros be_int to_be nth hd
-          ecb cbc_encrypt shift_bytes key_k1 key_k2 max_size fst snd repeat_bytes optv];
-    cbn [fst snd];
-    fold_consts.
-  Ltac no_if := lazymatch goal with |- context [if _ then _ else _] => fail | _ => idtac end.
-  Ltac run_sym := repeat (no_if; sstep).
-
-  (* lengths of Python slices / slice assignments, for the arithmetic side conditions *)
-  Lemma len_firstn : forall k (l : list Z), len (firstn k l) = Z.min (Z.of_nat k) (len l).
-  Proof. intros. unfold len. rewrite firstn_length. lia. Qed.
-  Lemma len_skipn : forall k (l : list Z), len (skipn k l) = Z.max 0 (len l - Z.of_nat k).
-  Proof. intros. unfold len. rewrite skipn_length. lia. Qed.
-
-  Lemma len_py_slice_pos : forall l a b, 0 <= a -> a <= b ->
-    len (py_slice l a b) = Z.min b (len l) - Z.min a (len l).
-  Proof.
-    intros l a b Ha Hb. unfold py_slice, norm_index. pose proof (len_nonneg l).
-    destruct (a <? 0) eqn:E1; [lia|]. destruct (b <? 0) eqn:E2; [lia|].
-    rewrite len_firstn, len_skipn. lia.
-  Qed.
-
-  Lemma len_py_slice_neg : forall l r, 0 < r ->
-    len (py_slice l 0 (- r)) = Z.max 0 (len l - r).
-  Proof.
-    intros l r Hr. unfold py_slice, norm_index. pose proof (len_nonneg l).
-    change (0 <? 0) with false. cbv iota. destruct (- r <? 0) eqn:E9; [|lia].
-    rewrite len_firstn, len_skipn. lia.
-  Qed.
-
-  Lemma len_py_splice : forall b l h v, 0 <= l ->
-    len (py_splice b l h v) = Z.min l (len b) + len v + Z.max 0 (len b - Z.max l h).
-  Proof.
-    intros b l h v Hl. unfold py_splice. rewrite !len_app, len_firstn, len_skipn. lia.
-  Qed.
-
-  Ltac lens H := repeat first [ rewrite len_py_splice in H by lia | rewrite len_py_slice_pos in H by lia
-                              | rewrite len_py_slice_neg in H by lia ].
-  Ltac lens_goal := repeat first [ rewrite len_py_splice by lia | rewrite len_py_slice_pos by lia
-                                 | rewrite len_py_slice_neg by lia ].
-
-  (* split on a stuck condition; a branch whose condition contradicts the invariants is closed at once *)
-  Ltac split_cond :=
-    match goal with
-    | |- context [if ?c then _ else _] =>
-        let H := fresh "Hc" in
-        destruct c eqn:H;
-        try (exfalso; lens H; pose proof len_nonneg; lia)
-    end.
-  Ltac go := repeat (run_sym; try split_cond).
-
-  Theorem cmac_update_matches_source : forall s msg,
-    len (c_cache s) = 16 -> 0 <= c_cache_n s < 16 ->
-    state_in (env_of (run 80 (cmac_env s) src_cmac_update_params src_cmac_update [VStr "cmac"; VBytes msg]))
-             (update E s msg).
-  Proof.
-    intros [cache n lct lpt ds cbcl] msg Hcl Hn.
-    cbn [c_cache c_cache_n] in Hcl, Hn.
-    pose proof (len_nonneg msg) as Hm.
-    unfold cmac_env, run, call. change (exec prim_cm no_attr no_op meth_cm) with xc.
-    cbn [c_cache c_cache_n c_last_ct c_last_pt c_data_size c_cbc_last].
-    cbv [bind src_cmac_update_params set_var String.eqb Ascii.eqb Bool.eqb]. unfold src_cmac_update.
-    Time go.
-    all: unfold update, update_tail, update_aligned, set_cache, cbc_encrypt, py_from, py_upto;
-         cbn [c_cache c_cache_n c_last_ct c_last_pt c_data_size c_cbc_last];
-         repeat match goal with H : _ = true |- _ => rewrite H; clear H | H : _ = false |- _ => rewrite H; clear H end.
-    all: try (repeat (match goal with |- context [cbc_blocks E ?l ?b] => destruct (cbc_blocks E l b) end; cbn [fst snd]);
-              unfold state_in; repeat split; reflexivity).
-  Qed.
 End CmacSource.
